@@ -15,8 +15,9 @@
      in_cell_or_band a e r c   per axis: in the closed cell, or c = 0 and -e <= ufrac < 0, or c = width-1 and width < ufrac <= width+e *)
 From Coq Require Import Reals ZArith Lra Lia Bool PrimFloat.
 From Flocq Require Import Raux Generic_fmt Round_NE.
-From PR Require Import Base.Num Base.RNum Base.F64 Model.Grid Model.CellIndex Model.C18_run Gen.GenC18
-     Proofs.Grid_real Proofs.C18_axis Proofs.C18_real Proofs.C18_gen.
+From PR Require Import Base.Num Base.RNum Base.F64 Model.Grid Model.CellIndex Model.CellSample Model.C18_run Gen.GenC18
+     Proofs.Grid_real Proofs.C18_axis Proofs.C18_real Proofs.C18_gen Proofs.C18_sample.
+From PR Require Model.Bucket Model.C01_Area Model.EWA.
 Open Scope R_scope.
 
 (* a concrete area used by the non-vacuity examples: extent (0, 0, 8, 4), 8 x 4 cells of size 1 *)
@@ -212,3 +213,102 @@ Proof.
   - apply C. left. unfold in_extent, between. cbn. lra.
   - apply bk_complete; auto. exact C18_ex_interior.
 Qed.
+
+(* ------------------------------------------------------------------ tie to the source (regenerated on every run, Gen/GenC18.v):
+   the element-wise index recipes of the five modules ARE the model functions, for every arithmetic OP
+   (hence for the real instance of the theorems above and for the binary64 instance of the correspondence). *)
+Theorem C18_source_get_linesample : forall {T} (OP : ops T) a x y,
+  gen_get_linesample OP a x y = (grid_row OP a y, grid_col OP a x).
+Proof. intros T OP. exact (gen_get_linesample_char OP). Qed.
+Print Assumptions C18_source_get_linesample.
+Theorem C18_source_linesample_masks : forall {T} (a : area T) r c,
+  gen_linesample_masks r c a = (in_range (height a) r, in_range (width a) c).
+Proof. intros T. exact (@gen_linesample_masks_char T). Qed.
+Print Assumptions C18_source_linesample_masks.
+Theorem C18_source_gridfilter_index : forall {T} (OP : ops T) a x y,
+  gen_gridfilter_index OP a x y =
+  (let r := gf_row_with OP (floorZ OP) a y in let c := gf_col_with OP (floorZ OP) a x in
+   ((if in_range (height a) r then r else 0), (if in_range (width a) c then c else 0), in_range (height a) r, in_range (width a) c))%Z.
+Proof. intros T OP. exact (gen_gridfilter_index_char OP). Qed.
+Print Assumptions C18_source_gridfilter_index.
+Theorem C18_source_bucket_indices : forall {T} (OP : ops T) a x y, gen_bucket_indices OP a x y = bk_xy OP a x y.
+Proof. intros T OP. exact (gen_bucket_indices_char OP). Qed.
+Print Assumptions C18_source_bucket_indices.
+Theorem C18_source_masked_ints : forall {T} (OP : ops T) a cf rf,
+  gen_masked_ints OP a cf rf = (mi_mask OP (width a) cf, mi_index OP (width a) cf, mi_mask OP (height a) rf, mi_index OP (height a) rf).
+Proof. intros T OP. exact (gen_masked_ints_char OP). Qed.
+Print Assumptions C18_source_masked_ints.
+Theorem C18_source_downcast_index_array : forall idx size, gen_downcast_index_array idx size = downcast size idx.
+Proof. exact gen_downcast_char. Qed.
+Print Assumptions C18_source_downcast_index_array.
+Theorem C18_source_ll2cr_params : forall a : area R,
+  gen_ll2cr_params RO a = (ll_cw RO a, ll_ch RO a, width a, height a, ll_ox RO a, ll_oy RO a).
+Proof. exact gen_ll2cr_params_R. Qed.
+Print Assumptions C18_source_ll2cr_params.
+Theorem C18_source_ll2cr_params_binary64 : forall a : area PrimFloat.float,
+  gen_ll2cr_params F64 a = (ll_cw F64 a, ll_ch F64 a, width a, height a, ll_ox F64 a, ll_oy F64 a).
+Proof. exact gen_ll2cr_params_F. Qed.
+Example C18_source_ex : gen_get_linesample F64 unit_area (-0.5)%float 2.5%float = (1%Z, (-1)%Z) /\
+  gen_bucket_indices F64 unit_area (-0.5)%float 2.5%float = ((-1)%Z, (-1)%Z) /\ gen_downcast_index_array (-65536) 10 = 10%Z.
+Proof. vm_compute. repeat split. Qed.
+
+(* ------------------------------------------------------------------ what the index pairs are used for (Model/CellSample.v):
+   get_image_from_linesample zeroes invalid indices, reads image[0, 0] there and overwrites it with the fill value;
+   GridFilter reads filter[0, 0] there and ANDs it with the validity flags.  So no value of row 0 / column 0 (or of any
+   other cell) ever reaches a point outside the extent, and an interior point gets exactly its cell's value. *)
+Theorem C18_grid_image_value : forall {T} (OP : ops T) img fill a x y,
+  grid_image OP img fill a x y = match grid_cell OP a x y with Some (r, c) => img r c | None => fill end.
+Proof. intros T OP. exact (grid_image_spec OP). Qed.
+Print Assumptions C18_grid_image_value.
+Theorem C18_grid_image_outside_is_fill : forall img fill a x y, wf_area a -> ~ in_extent a x y -> grid_image RO img fill a x y = fill.
+Proof. exact grid_image_outside. Qed.
+Print Assumptions C18_grid_image_outside_is_fill.
+Theorem C18_grid_image_interior_is_cell_value : forall img fill a x y r c, wf_area a -> fits_int32 a -> valid_cell a r c ->
+  in_cell_open a r c x y -> grid_image RO img fill a x y = img r c.
+Proof. exact grid_image_interior. Qed.
+Print Assumptions C18_grid_image_interior_is_cell_value.
+Theorem C18_quick_image_outside_is_fill : forall img fill a x y, wf_area a -> ~ in_extent a x y -> quick_image RO img fill a x y = fill.
+Proof. exact quick_image_outside. Qed.
+Print Assumptions C18_quick_image_outside_is_fill.
+Theorem C18_quick_image_interior_is_cell_value : forall img fill a x y r c, wf_area a -> fits_int32 a -> valid_cell a r c ->
+  in_cell_open a r c x y -> quick_image RO img fill a x y = img r c.
+Proof. exact quick_image_interior. Qed.
+Print Assumptions C18_quick_image_interior_is_cell_value.
+Theorem C18_gridfilter_value : forall {T} (OP : ops T) filt a x y,
+  gf_valid_index OP filt a x y = match gf_cell OP a x y with Some (r, c) => filt r c | None => false end.
+Proof. intros T OP. exact (gf_valid_index_spec OP). Qed.
+Print Assumptions C18_gridfilter_value.
+Theorem C18_gridfilter_outside_is_false : forall filt a x y, wf_area a -> ~ in_extent a x y -> gf_valid_index RO filt a x y = false.
+Proof. exact gf_valid_outside. Qed.
+Print Assumptions C18_gridfilter_outside_is_false.
+Example C18_value_ex : grid_image F64 (fun r c => r * 8 + c + 1)%Z 0 unit_area (-0.5)%float 2.5%float = 0%Z /\
+  grid_image F64 (fun r c => r * 8 + c + 1)%Z 0 unit_area 0.5%float 2.5%float = 9%Z /\
+  gf_valid_index F64 (fun _ _ => true) unit_area 3%float 4.5%float = false.
+Proof. vm_compute. repeat split. Qed.
+
+(* ------------------------------------------------------------------ composition with the area's own map (Grid_real, C01):
+   the projection coordinates the area itself gives to the centre of pixel (r, c) come back as cell (r, c) in every
+   module, and as exactly (c, r) from ll2cr *)
+Theorem C18_pixel_centres_come_back : forall a r c, wf_area a -> fits_int32 a -> valid_cell a r c ->
+  let x := proj_x RO a c in let y := proj_y RO a r in
+  area_cell RO a x y = Some (r, c) /\ grid_cell RO a x y = Some (r, c) /\ quick_cell RO a x y = Some (r, c) /\
+  gf_cell RO a x y = Some (r, c) /\ bk_cell RO a x y = Some (r, c) /\
+  (x < big_1e30 RO -> forall fill, ll2cr_point RO a fill x y = (IZR c, IZR r, true)).
+Proof. exact centres_roundtrip. Qed.
+Print Assumptions C18_pixel_centres_come_back.
+
+(* ------------------------------------------------------------------ the other properties' models of the same code are
+   the same functions (C07's bucket indices for every arithmetic; C01's scalar index lookup and C08's ll2cr over R),
+   so their theorems and C18's speak about one object *)
+Theorem C18_bucket_model_is_C07_model : forall {T} (OP : ops T) (a : area T) x y,
+  Bucket.bk_cell_of OP a (x, y) = bk_cell OP a x y /\ Bucket.bk_xy_idx OP a (x, y) = bk_xy OP a x y.
+Proof. intros T OP. exact (c07_bucket_same OP). Qed.
+Print Assumptions C18_bucket_model_is_C07_model.
+Theorem C18_area_index_model_is_C01_model : forall a x y, wf_area a -> fits_int32 a ->
+  C01_Area.c01_index_scalar RO a x y = match area_cell RO a x y with Some (r, c) => Some (c, r) | None => None end.
+Proof. exact c01_index_same. Qed.
+Print Assumptions C18_area_index_model_is_C01_model.
+Theorem C18_ll2cr_model_is_C08_model : forall (a : area R) fill x y,
+  EWA.ll2cr_pixel RO (EWA.ll2cr_params RO a) fill (x, y) = ll2cr_point RO a fill x y.
+Proof. exact c08_ll2cr_same. Qed.
+Print Assumptions C18_ll2cr_model_is_C08_model.
